@@ -23,9 +23,22 @@ def main(tier, seed, replay):
             "are these yield points, and their sequence is part of every compared observation",
             "the Go schedule controller (harness/cmd/c18): parks every goroutine inside the hook, releases exactly one at a time "
             "in the order of the schedule and records return values, compute counts, final loads and yield points; schedules come "
-            "from a Go copy of the model's step function (a wrong copy can only reduce coverage: every case is re-run by the Coq "
-            "model); a goroutine parked before a Wait is only released when the model says Done has run, and separate wait probes "
-            "check that releasing it earlier really blocks",
+            "from a Go copy of the model's step function (every case is re-run by the Coq model; besides choosing schedules the "
+            "copy is used for one prediction, below: a wrong copy can reduce coverage or raise a false alarm there, never hide a "
+            "defect); a goroutine parked before a Wait is only released when the model says Done has run, so the code between that "
+            "yield point and the Wait runs before Done only in the separate wait probes: they release the waiter early, require that "
+            "it blocks, then let everybody run freely and require that the waiter returns exactly the value the placeholder's owner "
+            "computes (signature waiter-wrong-value; prediction from the Go copy of the model)",
+            "free-running completions (after a wait probe, a strict prefix of a schedule, or a divergence from the model's step "
+            "sequence) are not compared with the model (their interleaving is the Go scheduler's); what the calls returned and the "
+            "final map are judged by the schedule-independent predicates only: no placeholder / nil returned, at most one compute "
+            "(Store closures are not counted there), callers agree on a key nobody stores to, the final value of a stored key is a "
+            "stored value and not one overwritten later by the same goroutine",
+            "translator harness/cmd/extract/t_lazymap.go (go/parser AST walk, both modules): per function the sequence of yield "
+            "points, atomic calls, returns, accesses to the result field v, type assertions, defer/go, the form of each if condition "
+            "and each boolean flag assignment (variables by the parser's resolution); Props.C18.source_shape_is_modelled, "
+            "waiters_read_result_after_wait and store_overwrites_iff_its_closure_did_not_run compare it with what D2/LazyMap.v "
+            "transcribes - expressions inside calls and conditions other than these forms are not extracted",
             "the linearizability checker of the driver (brute force over <= 6 calls) is an independent oracle on the "
             "implementation's observations; the proof side is Props.C18.linearizable",
             "values: the model's values are abstract tokens with identity (LazyMap.v val := nat; the model never compares, copies "
